@@ -283,6 +283,56 @@ def run_reply_case(case) -> dict:
     return res
 
 
+def run_reply_concurrent(case) -> dict:
+    """["reply2", seed, kl_a, kl_b, pad_mode]: two async GetKey calls run at once on one loop against the same DC; their replies
+    have different lengths and arrive in PRNG-chosen segments; each call must end up with the envelope the DC encoded for it."""
+    import asyncio
+
+    import dpapi_ng._client as dclient
+
+    from ref import dtyp
+
+    _, seed, kla, klb, pad_mode = case
+    world = W.World(seed)
+    record: list = []
+    cfg = {"legs": 2, "sig": (16, 28, 60, 76)[seed % 4]}
+    rka, rkb = _small_dh_rootkey(kla), _small_dh_rootkey(klb)
+    sid = "S-1-5-21-1-2-3-1105"
+    sd = dtyp.target_sd(sid)
+    dc = refdc.RefDC(world, [rka, rkb], host=DC, caller_sids={sid} if seed % 2 else set(), acceptor_factory=drive.stub_acceptor_factory(cfg),
+                     domain="d" * (seed % 5), forest="f", rpc_knobs={"pad_mode": pad_mode, "header_sign": bool(seed % 3)})
+    world.default_delivery = {"mode": "rand", "seed": seed, "bias": ("small", "header", "geo")[seed % 3]}
+    results = {}
+
+    async def one(tag, rk):
+        try:
+            results[tag] = ("ok", await dclient._async_get_key(DC, sd, rk.root_key_id, -1, -1, -1))
+        except Exception as e:  # noqa: BLE001
+            results[tag] = ("raise", e)
+
+    async def main():
+        lp = asyncio.get_running_loop()
+        await asyncio.gather(lp.create_task(one("a", rka), name="opA"), lp.create_task(one("b", rkb), name="opB"))
+
+    with world.installed(ctx_factory=drive.stub_ctx_factory(cfg, record)):
+        whole = drive.classify(lambda: drive.run_async(world, main, random.Random(seed), (1, (50, 4000, 60000)[seed % 3])))
+    viol = None
+    probes = {"concurrent_replies": 1}
+    for tag, rk in (("a", rka), ("b", rkb)):
+        r = results.get(tag)
+        if r is None or r[0] != "ok":
+            viol = common.violation("C13", "reply-padding", "async-concurrent", "decode-failed", "", "",
+                                    f"two GetKey calls in flight at once: call {tag} failed ({None if r is None else r[1]!r}; loop: {whole.brief()}); case={case} dc={dc.all_violations[:2]}")
+            break
+        g = r[1]
+        want = [e for e in dc.getkey_log if e.get("root_key_id") == rk.root_key_id][-1]["envelope_fields"]
+        if (g.root_key_identifier, g.secret_parameters, g.l2_key, g.domain_name) != (want["root_key_id"], want["secret_params"], want["l2_key"], want["domain"]):
+            viol = common.violation("C13", "reply-padding", "async-concurrent", "wrong-envelope", "", "", f"call {tag} decoded an envelope that is not the one the DC encoded for it; case={case}")
+            break
+    return {"viol": viol, "digest": world.digest() + whole.brief(), "key": common.key_hash(case), "fired": {"seg": world.stats.get("seg", 0), "concurrent": 1},
+            "probes": probes, "vtime_ns": world.stats.get("vtime_ns", 0)}
+
+
 class C13(common.Check):
     id = "C13"
     level = "exploration"
@@ -290,7 +340,7 @@ class C13(common.Check):
             "{16,28,60,76} x header signing on/off (authenticated) plus unauthenticated requests, both flavours - enumerated completely; "
             "reply path: GetKey replies from the reference DC whose envelope length sweeps every residue (DH key_length 5..12 incl. odd, "
             "domain/forest name lengths 0..7, seed and public-key replies) x server padding policy {pad to 16, pad to 4, extra 4k, exactly K for K in 0..15} so that "
-            "pad_length 0..15 all occur (NDR64 GetKey stubs are always 4-aligned, so K % 4 != 0 only arises from a lenient server: there a "
+            "pad_length 0..15 all occur; pairs of async GetKey calls in flight at once with replies of different lengths delivered in PRNG segments (NDR64 GetKey stubs are always 4-aligned, so K % 4 != 0 only arises from a lenient server: there a "
             "raised error is tolerated, a wrong envelope never is). Non-trivial = every case (each has a distinct length residue/knob combination); distinct = "
             "distinct parameter tuple.")
     components = {"client": "real (RpcClient._create_request/_prepare_pdu/_process_response, AuthenticationProvider.wrap/unwrap, "
@@ -299,7 +349,7 @@ class C13(common.Check):
                   "DC": "model (RefDC)", "transport": "simulated"}
     assumptions = ["the quantifier is a parameter grid; what the simulation contributes is the second party (independent receiver, recording context)",
                    "alloc_hint is recorded, not judged"]
-    required_fired = tuple(f"reply_pad_{k}" for k in range(16)) + ("hs_1_auth_1", "hs_0_auth_1", "hs_0_auth_0", "seq_connections")
+    required_fired = tuple(f"reply_pad_{k}" for k in range(16)) + ("hs_1_auth_1", "hs_0_auth_1", "hs_0_auth_0", "seq_connections", "concurrent_replies")
 
     def exhaustive(self, tier):
         return True
@@ -325,6 +375,8 @@ class C13(common.Check):
                     if a != b_:
                         for n in (0, 5, 16, 33):
                             out.append(["seq", fl, [a, b_, a], n, 1])
+        for i in range(600 if tier == "quick" else 20000):
+            out.append(["reply2", i, 5 + i % 8, 5 + (i * 3 + 1) % 8, ("min16", "min4", "1")[i % 3]])
         for fl in ("sync", "async"):
             for kl in range(5, 13):
                 for dlen in range(0, 8 if tier == "thorough" else 4):
@@ -340,6 +392,8 @@ class C13(common.Check):
             return run_request_case(case)
         if case[0] == "seq":
             return run_seq_case(case)
+        if case[0] == "reply2":
+            return run_reply_concurrent(case)
         return run_reply_case(case)
 
     def shrink(self, case):
@@ -353,6 +407,8 @@ class C13(common.Check):
                 yield ["req", fl, n, vtv, 16, hs, auth]
             if fl == "async":
                 yield ["req", "sync", n, vtv, sig, hs, auth]
+        elif case[0] == "reply2":
+            return
         elif case[0] == "seq":
             if len(case[2]) > 2:
                 yield ["seq", case[1], case[2][:2], case[3], case[4]]
@@ -370,6 +426,8 @@ class C13(common.Check):
             return dict(zip(("kind", "flavour", "stub_len", "vt_variant", "sig_size", "header_sign", "authenticated"), case))
         if case[0] == "seq":
             return dict(zip(("kind", "flavour", "sig_sizes_of_consecutive_connections", "stub_len", "vt_variant"), case))
+        if case[0] == "reply2":
+            return dict(zip(("kind", "seed", "dh_key_length_a", "dh_key_length_b", "pad_mode"), case))
         return dict(zip(("kind", "flavour", "dh_key_length", "domain_len", "forest_len", "pad_mode", "sig_size", "member"), case))
 
 
